@@ -48,7 +48,7 @@ func TestC10(t *testing.T) {
 			depths = append(depths, 1000000)
 		}
 		e.feed(feedOpts{shortlexQ: 3, shortlexT: 5, sweepQ: 100, sweepT: 3000, sweepMaxLen: 64, nestQ: 60, nestT: 600, nestDepths: depths,
-			mutQ: 30000, mutT: 1000000, nextByte: false, noDepthSites: true}, evalBytes)
+			mutQ: 30000, mutT: 1000000, nextByte: false, alignment: true, noDepthSites: true}, evalBytes)
 		// 2. free bytes
 		e.rapidStage("freebytes", "rapid", e.cfg.N(20000, 1500000), func(rt *rapid.T) {
 			b := rapid.SliceOfN(rapid.Byte(), 0, 48).Draw(rt, "bytes")
